@@ -3,7 +3,7 @@
 //! Engine A, differential: every swap below is the REAL `swap` / `swap_v2` instruction run through `svm::process`.
 //!
 //! * Layouts: for each world (ts = 64 around tick 0, ts = 1, ts = 3 on the negative side, ts = 64 at the MIN bound, ts = 64 at
-//!   the MAX bound, ts = 32768 full-range-only) every subset (size <= bound) of a 15-slot candidate set {first, second, middle, last-1, last usable slot}
+//!   the MAX bound, ts = 5000 whose last usable tick is an array start, ts = 32768 full-range-only) every subset (size <= bound) of a 15-slot candidate set {first, second, middle, last-1, last usable slot}
 //!   x 3 consecutive tick arrays is turned into initialized ticks through real `open_position` + `increase_liquidity`
 //!   (chained ranges with different liquidity => every tick has a distinct non-zero net of mixed sign), optionally with a
 //!   zero-liquidity gap between two neighbouring ticks.
@@ -203,6 +203,28 @@ fn specs() -> Vec<WSpec> {
             top_price: mid(p_of(a0 + 2 * n + 67 * ts), MAX_SQRT_PRICE),
             bottom_price: mid(p_of(a0 - ts), p_of(a0)),
         });
+    }
+    {
+        // a spacing whose last usable tick (440000) is exactly an array start: the pool has three arrays, the last one with
+        // the single usable slot 0, the first one starting exactly on the lowest usable tick
+        let (ts, n) = (5000i32, 440000i32);
+        v.push(WSpec {
+            name: "ts5000",
+            ts: 5000,
+            arrays: vec![-n, 0, n],
+            slots: vec![vec![0, 87], vec![0, 44, 87], vec![0]],
+            far_lo: None,
+            far_hi: None,
+            extras: vec![],
+            base_liq: 100_000,
+            small: [(true, 1000), (true, 1000)],
+            forced: None,
+            max_subset: (2, 3),
+            gap_subset: (0, 0),
+            top_price: mid(p_of(n), MAX_SQRT_PRICE),
+            bottom_price: mid(MIN_SQRT_PRICE, p_of(-n)),
+        });
+        let _ = ts;
     }
     {
         // full-range-only pool: two arrays, one usable range
@@ -1366,7 +1388,7 @@ pub fn run(ctx: &Ctx) -> Report {
     let t_main = ctx.elapsed();
     let hard = (ctx.budget_s - t_main).min(ctx.pick((24.0 - t_main).max(12.0), 470.0));
     // small worlds first; each world may run until its cumulative share of the wall budget is used up (slack is passed on)
-    let order: [(&str, f64); 6] = [("splash", 0.02), ("lo64", 0.09), ("hi64", 0.16), ("ts3neg", 0.22), ("ts1", 0.32), ("ts64", 1.0)];
+    let order: [(&str, f64); 7] = [("splash", 0.02), ("ts5000", 0.08), ("lo64", 0.14), ("hi64", 0.20), ("ts3neg", 0.26), ("ts1", 0.35), ("ts64", 1.0)];
     let all = specs();
     for (wname, share) in order {
         let spec = all.iter().find(|s| s.name == wname).expect("world").clone();
